@@ -160,7 +160,7 @@ def track(op, batch, keys):
     return None
 
 
-def gen_prog(rng, batch, keys, depth, maxlen=4, allow_vmap=True):
+def gen_prog(rng, batch, keys, depth, maxlen=4, allow_vmap=True, top=True):
     """random applicable program on a per-sample tensordict of this batch size"""
     prog = []
     b, ks = list(batch), list(keys)
@@ -186,7 +186,7 @@ def gen_prog(rng, batch, keys, depth, maxlen=4, allow_vmap=True):
                 continue
             i = rng.choice(cand)
             inner_b = b[:i] + b[i + 1:]
-            sub, (b2, k2) = gen_prog(rng, inner_b, ks, depth - 1, maxlen=3, allow_vmap=False)
+            sub, (b2, k2) = gen_prog(rng, inner_b, ks, depth - 1, maxlen=3, allow_vmap=depth - 1 > 0, top=False)
             o = rng.randint(0, len(b2))
             i_s = i - len(b) if rng.random() < 0.3 else i
             o_s = o - (len(b2) + 1) if rng.random() < 0.3 else o
@@ -203,7 +203,7 @@ def gen_prog(rng, batch, keys, depth, maxlen=4, allow_vmap=True):
             continue
         prog.append(op)
         b, ks = t
-    if allow_vmap and "n.x" in ks and not any(o[0] in ("flatten_keys", "vmap") for o in prog) and rng.random() < 0.35:
+    if top and allow_vmap and "n.x" in ks and not any(o[0] in ("flatten_keys", "vmap") for o in prog) and rng.random() < 0.35:
         prog.append(("deepen",))      # top level only: the output holds a nested tensordict with MORE batch dims than its parent
     return prog, (b, ks)
 
